@@ -1,16 +1,13 @@
 """C19 front-end: cargo features + cfg-guarded module tree of the three library crates -> JSON for TLC.
-
 TEXT LEVEL AND APPROXIMATE (declared in notes/C19.md): there is no Rust parser here.  The source is
 cleaned of comments / string / char literals, attributes are recognised by bracket matching, the
 extent an attribute applies to is found by a `;` / `{..}` / `,` heuristic, and paths are resolved
 through `mod` declarations, named `use`s and glob `use`s only.  Names brought in by a `use` and then
 used unqualified, method calls, macro-generated items and trait resolution are NOT followed.  A
 path this resolver cannot follow is counted as `unresolved` and ignored (never an alarm).
-
 No domain logic lives here: the tool records WHAT the text says (feature tables, guard
 expressions, which guarded place names which guarded thing).  Whether a configuration is closed
 is decided by spec/Features.tla.
-
 Output (dict, see `extract`):
   crates   : name -> {features: [...], implies: {f: [qualified features]}, optional_deps, ...}
   guards   : list of guard expression trees over QUALIFIED feature atoms "<crate>/<feature>"
@@ -25,18 +22,14 @@ import os
 import re
 import sys
 import tomllib
-
 CRATES = ["wow_world_base", "wow_world_messages", "wow_login_messages"]
 ALWAYS_EXTERN = {"std", "core", "alloc"}
 ITEM_KW = {"pub", "fn", "impl", "use", "mod", "struct", "enum", "const", "static", "type", "trait",
            "async", "unsafe", "extern", "macro_rules", "let", "union", "default"}
 DECL_KW = {"fn", "struct", "enum", "const", "static", "type", "trait", "union", "macro_rules"}
-
-
 # ----------------------------------------------------------------------------------------------
 # Cargo.toml
 # ----------------------------------------------------------------------------------------------
-
 def read_manifest(repo, crate):
     with open(os.path.join(repo, crate, "Cargo.toml"), "rb") as f:
         t = tomllib.load(f)
@@ -85,22 +78,17 @@ def read_manifest(repo, crate):
             "implies": {k: v for k, v in implies.items() if k != "default"},
             "deps": deps,
             "dev_deps": sorted(t.get("dev-dependencies", {}).keys())}
-
-
 # ----------------------------------------------------------------------------------------------
 # cleaning and tokenising Rust text
 # ----------------------------------------------------------------------------------------------
-
 def clean(src):
     """Blank out comments, string and char literals (keeping length and newlines)."""
     out = list(src)
     i, n = 0, len(src)
-
     def blank(a, b, keep=0):
         for k in range(a + keep, b - keep):
             if out[k] != "\n":
                 out[k] = " "
-
     while i < n:
         c = src[i]
         if c == "/" and i + 1 < n and src[i + 1] == "/":
@@ -149,21 +137,15 @@ def clean(src):
         else:
             i += 1
     return "".join(out)
-
-
 _CFG_ATOM = re.compile(r'\s*feature\s*=\s*"([^"]*)"\s*')
-
-
 def parse_cfg(text, raw):
     """Parses the inside of cfg(...) from CLEANED text; string contents are taken from `raw`
     (same offsets).  Returns an unqualified guard tree."""
     pos = 0
-
     def ws():
         nonlocal pos
         while pos < len(text) and text[pos].isspace():
             pos += 1
-
     def expr():
         nonlocal pos
         ws()
@@ -202,10 +184,7 @@ def parse_cfg(text, raw):
                 return {"op": "test"}
             return {"op": "other", "text": word}
         raise ValueError("cannot parse cfg: %r" % raw)
-
     return expr()
-
-
 def match_close(text, i, open_c, close_c):
     """Index just after the bracket matching text[i] == open_c."""
     depth = 0
@@ -220,21 +199,14 @@ def match_close(text, i, open_c, close_c):
                 return i + 1
         i += 1
     return n
-
-
 class Region:
     __slots__ = ("start", "end", "guard", "kind", "name", "children", "parent", "refs", "uses", "line",
                  "cfg_attr_spans")
-
     def __init__(self, start, end, guard, kind, name, line):
         self.start, self.end, self.guard, self.kind, self.name, self.line = start, end, guard, kind, name, line
         self.children, self.parent, self.refs, self.uses = [], None, [], []
         self.cfg_attr_spans = []
-
-
 _WORD = re.compile(r"[A-Za-z_][A-Za-z0-9_]*")
-
-
 def extent_after_attrs(text, i, end_limit):
     """The text extent an outer attribute placed before position i applies to.
     Returns (end, kind, name)."""
@@ -308,13 +280,10 @@ def extent_after_attrs(text, i, end_limit):
             return k + 1, kind, name
         k += 1
     return n, kind, name
-
-
 def expand_use_tree(s):
     """`a::{b, c::{d, e as f}, *}` -> list of (segments, alias, is_glob)."""
     s = s.strip()
     out = []
-
     def split_top(t):
         parts, depth, cur = [], 0, []
         for ch in t:
@@ -330,7 +299,6 @@ def expand_use_tree(s):
         if "".join(cur).strip():
             parts.append("".join(cur))
         return parts
-
     def go(prefix, t):
         t = t.strip()
         if not t:
@@ -358,15 +326,11 @@ def expand_use_tree(s):
             out.append((prefix + segs[:-1], alias, False))
         else:
             out.append((prefix + segs, alias, False))
-
     go([], s)
     return out
-
-
 # ----------------------------------------------------------------------------------------------
 # one file -> region tree
 # ----------------------------------------------------------------------------------------------
-
 class FileScan:
     def __init__(self, path, crate_info, extern_names):
         self.path = path
@@ -380,11 +344,9 @@ class FileScan:
         self.root = Region(0, len(self.text), None, "file", None, 1)
         self.stats = {"cfg_attrs": 0, "cfg_attr_attrs": 0, "other_cfg": 0}
         self._scan()
-
     def line_of(self, pos):
         import bisect
         return bisect.bisect_right(self.line_starts, pos)
-
     def _scan(self):
         text, raw = self.text, self.raw
         n = len(text)
@@ -433,7 +395,6 @@ class FileScan:
         attr_end_at = {s: e for s, e in attr_spans}
         attr_starts = sorted(attr_end_at)
         import bisect
-
         def skip_attrs(pos):
             while True:
                 while pos < n and text[pos].isspace():
@@ -443,7 +404,6 @@ class FileScan:
                     pos = attr_end_at[pos]
                 else:
                     return pos
-
         flat = []
         for kind, s, e, g in regions:
             if kind == "cfg_attr":
@@ -455,7 +415,7 @@ class FileScan:
         # 3. unguarded named declarations and mod/use statements also become regions (guard None),
         #    so that names can be looked up and refs attach to the right declaration
         for m in re.finditer(r"(?m)^[ \t]*((?:pub(?:\s*\([^)]*\))?\s+)?(?:(?:async|unsafe|const|default|extern(?:\s*\"[^\"]*\")?)\s+)*"
-                             r"(fn|struct|enum|const|static|type|trait|union|mod|use|impl|macro_rules!)\b)", text):
+                             r"(?:(?:fn|struct|enum|const|static|type|trait|union|mod|use|impl)\b|macro_rules\s*!))", text):
             s = m.start(1)
             end, k2, name = extent_after_attrs(text, s, n)
             flat.append(Region(s, end, None, k2, name, self.line_of(s)))
@@ -475,28 +435,21 @@ class FileScan:
             r.parent = top
             top.children.append(r)
             stack.append(r)
-
     def regions(self):
         out = []
-
         def walk(r):
             out.append(r)
             for c in r.children:
                 walk(c)
         walk(self.root)
         return out
-
-
 _PATH = re.compile(r"(?<![\w:.$])((?:crate|super|self|%s)(?:\s*::\s*[A-Za-z_][A-Za-z0-9_]*)+)")
-
-
 def collect_refs(fs, extern_names):
     """Attach path references and use statements to the innermost region."""
     text = fs.text
     regs = fs.regions()
     pat = re.compile(_PATH.pattern % "|".join(sorted(re.escape(x) for x in extern_names)))
     use_pat = re.compile(r"(?<![\w])(pub(?:\s*\([^)]*\))?\s+)?use\s+([^;]*);")
-
     def innermost(pos):
         r = fs.root
         while True:
@@ -506,7 +459,6 @@ def collect_refs(fs, extern_names):
                     break
             else:
                 return r
-
     use_spans = []
     for m in use_pat.finditer(text):
         # skip matches inside attribute text etc.
@@ -527,12 +479,9 @@ def collect_refs(fs, extern_names):
             continue  # handled as a use
         segs = [x.strip() for x in m.group(1).split("::")]
         innermost(m.start()).refs.append({"segs": segs, "line": fs.line_of(m.start())})
-
-
 # ----------------------------------------------------------------------------------------------
 # module tree
 # ----------------------------------------------------------------------------------------------
-
 class Module:
     def __init__(self, crate, path, file, region, parent):
         self.crate, self.path, self.file, self.region, self.parent = crate, path, file, region, parent
@@ -540,11 +489,8 @@ class Module:
         self.decls = {}        # name -> list of Region
         self.uses = []         # (region, use dict)
         self.conds = []        # list of guard trees (qualified), whole chain from crate root
-
     def id(self):
         return "::".join(self.path)
-
-
 def chain(region):
     """Guards of `region` and its ancestors inside the file (outermost first)."""
     out = []
@@ -554,16 +500,12 @@ def chain(region):
             out.append(r.guard)
         r = r.parent
     return out[::-1]
-
-
 def qualify(g, crate):
     if g["op"] == "feat":
         return {"op": "feat", "f": "%s/%s" % (crate, g["f"])}
     if g["op"] in ("any", "all", "not"):
         return {"op": g["op"], "args": [qualify(a, crate) for a in g["args"]]}
     return dict(g)
-
-
 class CrateScan:
     def __init__(self, repo, crate, manifest, all_crates):
         self.repo, self.crate, self.manifest = repo, crate, manifest
@@ -577,7 +519,6 @@ class CrateScan:
         self.modules = []
         self.stats = {"files": 0, "cfg_attrs": 0, "cfg_attr_attrs": 0}
         self.root = self._load_module([crate], os.path.join(self.src, "lib.rs"), None, None, [])
-
     def _scan(self, file):
         if file not in self.files:
             fs = FileScan(file, self.manifest, set(self.extern))
@@ -587,7 +528,6 @@ class CrateScan:
             self.stats["cfg_attrs"] += fs.stats["cfg_attrs"]
             self.stats["cfg_attr_attrs"] += fs.stats["cfg_attr_attrs"]
         return self.files[file]
-
     def _load_module(self, path, file, region, parent, conds):
         """A module whose body is a whole file (region None) or an inline `mod x { }` region."""
         mod = Module(self.crate, path, file, region, parent)
@@ -597,7 +537,6 @@ class CrateScan:
         body = fs.root if region is None else region
         self._populate(mod, fs, body, in_fn=False)
         return mod
-
     def _populate(self, mod, fs, body, in_fn):
         for r in body.children:
             if r.kind == "mod" and r.name:
@@ -635,8 +574,6 @@ class CrateScan:
             if r.kind in ("use", "region") and r.kind != "mod":
                 for u in r.uses:
                     mod.uses.append((r, u))
-
-
 def chain_between(region, stop):
     """Guards of region and ancestors up to (not including) `stop`'s ancestors; includes guards of
     `stop` only if stop is region itself."""
@@ -647,24 +584,68 @@ def chain_between(region, stop):
             out.append(r.guard)
         r = r.parent
     return out[::-1]
-
-
 # ----------------------------------------------------------------------------------------------
 # resolution
 # ----------------------------------------------------------------------------------------------
+class Interner:
+    def __init__(self):
+        self.guards, self.ix = [], {}
+
+    def gid(self, g):
+        k = json.dumps(g, sort_keys=True)
+        if k not in self.ix:
+            self.ix[k] = len(self.guards)
+            self.guards.append(g)
+        return self.ix[k]
+
+    def cset(self, trees):
+        return frozenset(self.gid(g) for g in trees)
+
+
+def add_alt(alts, target, conds):
+    """alts: dict target -> list of frozensets (kept as an antichain: a superset of an existing
+    condition set adds nothing to a disjunction).  Returns True when something changed."""
+    cur = alts.get(target)
+    if cur is None:
+        alts[target] = [conds]
+        return True
+    for c in cur:
+        if c <= conds:
+            return False
+    alts[target] = [c for c in cur if not conds <= c] + [conds]
+    return True
+
 
 class Resolver:
-    def __init__(self, scans, manifests):
-        self.scans = scans          # crate -> CrateScan
-        self.manifests = manifests
-        self.memo = {}
-        self.active = set()
-        self.cuts = 0
-        self.region_conds = {}
-        self.region_module = {}
+    """Name resolution by fixed point over `mod`, named `use` and glob `use` (visibility ignored).
+    Namespace of a module: name -> {target -> [condition sets]}; a target is ("mod", Module),
+    ("decl", Module, Region) or ("extern", crate, dep, optional)."""
+
+    def __init__(self, scans, manifests, interner, order):
+        self.scans, self.manifests, self.I = scans, manifests, interner
+        self.ns = {}
+        self.rconds = {}
+        self.mods = []
+        for c in order:
+            self.mods.extend(scans[c].modules)
+        for m in self.mods:
+            m.cset = interner.cset(m.conds)
+            self.ns[id(m)] = {}
+        for m in self.mods:
+            ns = self.ns[id(m)]
+            for name, children in m.children.items():
+                for ch in children:
+                    add_alt(ns.setdefault(name, {}), ("mod", ch), ch.cset)
+            for name, regs in m.decls.items():
+                for r in regs:
+                    add_alt(ns.setdefault(name, {}), ("decl", m, r), self.conds_of_region(m, r))
+        self.passes = 0
+        self._fixpoint()
 
     def conds_of_region(self, mod, region):
-        """Full guard chain of a region that lives in module `mod`."""
+        k = id(region)
+        if k in self.rconds:
+            return self.rconds[k]
         body = mod.region
         out = []
         r = region
@@ -672,108 +653,94 @@ class Resolver:
             if r.guard is not None:
                 out.append(qualify(r.guard, mod.crate))
             r = r.parent
-        return mod.conds + out[::-1]
+        v = mod.cset | self.I.cset(out)
+        self.rconds[k] = v
+        return v
 
-    def lookup(self, mod, name, depth=0, seen=None):
-        """Alternatives for `name` in the namespace of `mod`:
-        list of (conds, kind, target) with kind in {"mod","decl","extern"}.
-        Memoised; a lookup that had to cut a cycle below it is not memoised (except at top level)."""
-        key = (id(mod), name)
-        if key in self.memo:
-            return self.memo[key]
-        if key in self.active or depth > 12:
-            self.cuts += 1
-            return []
-        self.active.add(key)
-        cuts0 = self.cuts
-        alts = []
-        for child in mod.children.get(name, []):
-            alts.append((child.conds, "mod", child))
-        for r in mod.decls.get(name, []):
-            alts.append((self.conds_of_region(mod, r), "decl", (mod, r)))
-        for ui, (region, u) in enumerate(mod.uses):
-            if u["glob"]:
-                if u["segs"] == ["super"] or u["segs"] == ["self"]:
-                    pass
-                uconds = self.conds_of_region(mod, region)
-                for tconds, tkind, t in self.resolve(mod, u["segs"], depth + 1) or []:
-                    if tkind != "mod" or t is mod:
+    def _fixpoint(self):
+        changed = True
+        while changed and self.passes < 40:
+            changed = False
+            self.passes += 1
+            for m in self.mods:
+                ns = self.ns[id(m)]
+                for region, u in m.uses:
+                    uconds = self.conds_of_region(m, region)
+                    alts = self.resolve(m, u["segs"])
+                    if not alts:
                         continue
-                    for c2, k2, t2 in self.lookup(t, name, depth + 1):
-                        alts.append((uconds + tconds + c2, k2, t2))
-            else:
-                nm = u["alias"] or u["segs"][-1]
-                if nm == name and not (len(u["segs"]) == 1):
-                    uconds = self.conds_of_region(mod, region)
-                    for tconds, tkind, t in self.resolve(mod, u["segs"], depth + 1) or []:
-                        alts.append((uconds + tconds, tkind, t))
-        self.active.discard(key)
-        if self.cuts == cuts0 or depth == 0:
-            self.memo[key] = alts
-        return alts
+                    if u["glob"]:
+                        for (tconds, t) in alts:
+                            if t[0] != "mod" or t[1] is m:
+                                continue
+                            base = uconds | tconds
+                            for name, entry in list(self.ns[id(t[1])].items()):
+                                dst = ns.setdefault(name, {})
+                                for t2, clist in list(entry.items()):
+                                    for c2 in clist:
+                                        if add_alt(dst, t2, base | c2):
+                                            changed = True
+                    else:
+                        name = u["alias"] or u["segs"][-1]
+                        if name in ("self", "crate", "super"):
+                            continue
+                        dst = ns.setdefault(name, {})
+                        for (tconds, t) in alts:
+                            if add_alt(dst, t, uconds | tconds):
+                                changed = True
 
-    def extern_alt(self, crate, ident):
-        sc = self.scans[crate]
-        if ident in ALWAYS_EXTERN:
-            return None
-        if ident in sc.extern:
-            dep, optional = sc.extern[ident]
-            return dep, optional
-        return None
+    def lookup(self, mod, name):
+        out = []
+        for t, clist in self.ns[id(mod)].get(name, {}).items():
+            for c in clist:
+                out.append((c, t))
+        return out
 
-    def resolve(self, mod, segs, depth=0, seen=None):
-        """Resolve a path written inside module `mod`.  Returns alternatives
-        [(conds, kind, target)]; [] = unresolved; None = always-present (std etc.)."""
+    def resolve(self, mod, segs):
+        """Alternatives [(conds, target)] of a path written inside `mod`; [] = unresolved;
+        None = always present (std, core, alloc)."""
         segs = list(segs)
-        cur = None
         first = segs[0]
+        empty = frozenset()
         if first == "crate":
-            cur = [([], "mod", self.scans[mod.crate].root)]
+            cur = [(empty, ("mod", self.scans[mod.crate].root))]
             segs = segs[1:]
         elif first == "self":
-            cur = [([], "mod", mod)]
+            cur = [(empty, ("mod", mod))]
             segs = segs[1:]
         elif first == "super":
             m = mod
             while segs and segs[0] == "super":
                 m = m.parent if m.parent is not None else m
                 segs = segs[1:]
-            cur = [([], "mod", m)]
+            cur = [(empty, ("mod", m))]
         elif first in ALWAYS_EXTERN:
             return None
         else:
-            # 2018 edition: a child/used name of the current module first, else an extern crate
-            local = self.lookup(mod, first, depth + 1)
+            local = self.lookup(mod, first)
             if local:
                 cur = local
                 segs = segs[1:]
-            elif first in self.scans and first != mod.crate:
-                cur = [([], "xcrate", first)]
+            elif first in self.scans and first != mod.crate and first in self.manifests[mod.crate]["deps"]:
+                opt = self.manifests[mod.crate]["deps"][first]["optional"]
+                c0 = self.I.cset([{"op": "feat", "f": "%s/<dep:%s>" % (mod.crate, first)}]) if opt else empty
+                cur = [(c0, ("mod", self.scans[first].root))]
                 segs = segs[1:]
             else:
-                ex = self.extern_alt(mod.crate, first)
-                if ex is None:
+                sc = self.scans[mod.crate]
+                if first not in sc.extern:
                     return []
-                return [([], "extern", (mod.crate,) + ex)]
-        # cross-crate root: dependency on a scanned crate
-        out = []
-        for conds, kind, t in cur:
-            if kind == "xcrate":
-                dep_optional = self.manifests[mod.crate]["deps"].get(t, {}).get("optional", False)
-                c0 = [{"op": "feat", "f": "%s/<dep:%s>" % (mod.crate, t)}] if dep_optional else []
-                out.append((c0, "mod", self.scans[t].root))
-            else:
-                out.append((conds, kind, t))
-        cur = out
+                dep, optional = sc.extern[first]
+                return [(empty, ("extern", mod.crate, dep, optional))]
         for s in segs:
-            nxt = []
-            for conds, kind, t in cur:
-                if kind != "mod":
-                    nxt.append((conds, kind, t))      # Type::Variant / Type::method : stop at the type
+            nxt = {}
+            for conds, t in cur:
+                if t[0] != "mod":
+                    add_alt(nxt, t, conds)        # Type::Variant, Type::method: stop at the type
                     continue
-                for c2, k2, t2 in self.lookup(t, s, depth + 1):
-                    nxt.append((conds + c2, k2, t2))
-            cur = nxt
+                for c2, t2 in self.lookup(t[1], s):
+                    add_alt(nxt, t2, conds | c2)
+            cur = [(c, t) for t, cl in nxt.items() for c in cl]
             if not cur:
                 return []
         return cur
@@ -786,135 +753,101 @@ class Resolver:
 def extract(repo="/repo", crates=CRATES):
     manifests = {c: read_manifest(repo, c) for c in crates}
     scans = {c: CrateScan(repo, c, manifests[c], crates) for c in crates}
-    res = Resolver(scans, manifests)
-
-    guards, guard_ix = [], {}
-
-    def gid(g):
-        k = json.dumps(g, sort_keys=True)
-        if k not in guard_ix:
-            guard_ix[k] = len(guards)
-            guards.append(g)
-        return guard_ix[k]
+    I = Interner()
+    res = Resolver(scans, manifests, I, crates)
 
     items, item_ix = [], {}
 
-    def item(key, rec):
+    def item(key, make):
         if key not in item_ix:
             item_ix[key] = len(items)
-            items.append(rec)
+            items.append(make())
         return item_ix[key]
-
-    def conds_ids(conds):
-        seen, out = set(), []
-        for g in conds:
-            i = gid(g)
-            if i not in seen:
-                seen.add(i)
-                out.append(i)
-        return out
 
     def relfile(p):
         return os.path.relpath(p, repo)
 
-    def target_item(kind, t):
-        if kind == "mod":
-            return item(("mod", id(t)), {"id": t.id(), "crate": t.crate, "kind": "mod", "file": relfile(t.file),
-                                         "conds": conds_ids(t.conds)})
-        if kind == "decl":
-            m, r = t
-            return item(("reg", id(r)), {"id": m.id() + "::" + (r.name or "?"), "crate": m.crate, "kind": r.kind,
-                                         "file": relfile(m.file), "line": r.line,
-                                         "conds": conds_ids(res.conds_of_region(m, r))})
-        if kind == "extern":
-            crate, dep, optional = t
-            if optional == "dev":
-                conds = [{"op": "test"}]
-            elif optional:
-                conds = [{"op": "feat", "f": "%s/<dep:%s>" % (crate, dep)}]
-            else:
-                conds = []
-            return item(("extern", crate, dep), {"id": "extern %s (dependency of %s)" % (dep, crate), "crate": crate,
-                                                 "kind": "extern", "conds": conds_ids(conds)})
-        raise AssertionError(kind)
+    def mod_item(m):
+        return item(("mod", id(m)), lambda: {"id": m.id(), "crate": m.crate, "kind": "mod", "file": relfile(m.file),
+                                             "conds": sorted(m.cset)})
+
+    def region_item(m, r):
+        return item(("reg", id(r)), lambda: {
+            "id": m.id() + "::" + (r.name or "<%s@%d>" % (r.kind, r.line)), "crate": m.crate, "kind": r.kind,
+            "file": relfile(m.file), "line": r.line, "conds": sorted(res.conds_of_region(m, r))})
+
+    def target_item(t):
+        if t[0] == "mod":
+            return mod_item(t[1])
+        if t[0] == "decl":
+            return region_item(t[1], t[2])
+        _, crate, dep, optional = t
+        if optional == "dev":
+            conds = [{"op": "test"}]
+        elif optional:
+            conds = [{"op": "feat", "f": "%s/<dep:%s>" % (crate, dep)}]
+        else:
+            conds = []
+        return item(("extern", crate, dep), lambda: {"id": "extern crate %s (dependency of %s)" % (dep, crate),
+                                                     "crate": crate, "kind": "extern", "conds": sorted(I.cset(conds))})
 
     refs = []
     stats = {c: dict(scans[c].stats, modules=len(scans[c].modules), refs=0, unresolved=0, always=0, uses=0)
              for c in crates}
     unresolved_samples = {c: [] for c in crates}
 
+    def is_item_region(r):
+        return r.guard is not None or (r.kind in DECL_KW and r.name)
+
     for c in crates:
         sc = scans[c]
         for mod in sc.modules:
-            target_item("mod", mod)
+            mod_item(mod)
             fs = sc.files[mod.file]
             body = fs.root if mod.region is None else mod.region
-
-            def walk(region, owner_mod=mod, body=body):
-                # nested inline modules are handled as modules of their own
+            stack = [body]
+            while stack:
+                region = stack.pop()
                 if region is not body and region.kind == "mod" and region.name and \
                         "{" in fs.text[region.start:region.end]:
-                    return
-                if region is body:
-                    src = target_item("mod", owner_mod)
-                elif region.guard is not None or (region.kind in DECL_KW and region.name):
-                    src = item(("reg", id(region)),
-                               {"id": owner_mod.id() + "::" + (region.name or "<%s@%d>" % (region.kind, region.line)),
-                                "crate": c, "kind": region.kind, "file": relfile(owner_mod.file), "line": region.line,
-                                "conds": conds_ids(res.conds_of_region(owner_mod, region))})
-                else:
-                    src = None
+                    continue      # an inline module is a module of its own
+                stack.extend(region.children)
                 todo = [(r_["segs"], r_["line"], False) for r_ in region.refs] + \
                        [(u["segs"], u["line"], True) for u in region.uses]
-                if src is None and todo:
-                    # unguarded anonymous region: attribute to nearest ancestor that is an item
-                    p = region.parent
-                    while p is not None and p is not body and p.guard is None and not (p.kind in DECL_KW and p.name):
-                        p = p.parent
-                    if p is None or p is body or p.kind == "file":
-                        src = target_item("mod", owner_mod)
-                    else:
-                        src = item(("reg", id(p)),
-                                   {"id": owner_mod.id() + "::" + (p.name or "<%s@%d>" % (p.kind, p.line)),
-                                    "crate": c, "kind": p.kind, "file": relfile(owner_mod.file), "line": p.line,
-                                    "conds": conds_ids(res.conds_of_region(owner_mod, p))})
+                if not todo and not (region is not body and is_item_region(region)):
+                    continue
+                p = region
+                while p is not body and p.kind != "file" and not is_item_region(p):
+                    p = p.parent
+                src = mod_item(mod) if (p is body or p.kind == "file") else region_item(mod, p)
                 for segs, line, is_use in todo:
                     stats[c]["refs"] += 1
-                    if is_use:
-                        stats[c]["uses"] += 1
-                    alts = res.resolve(owner_mod, segs)
+                    stats[c]["uses"] += 1 if is_use else 0
+                    alts = res.resolve(mod, segs)
                     if alts is None:
                         stats[c]["always"] += 1
                         continue
                     if not alts:
                         stats[c]["unresolved"] += 1
-                        if len(unresolved_samples[c]) < 40:
-                            unresolved_samples[c].append("%s:%d %s" % (relfile(owner_mod.file), line, "::".join(segs)))
+                        if len(unresolved_samples[c]) < 60:
+                            unresolved_samples[c].append("%s:%d %s" % (relfile(mod.file), line, "::".join(segs)))
                         continue
-                    seen_alt, alt_recs = set(), []
-                    for conds, kind, t in alts:
-                        ti = target_item(kind, t)
-                        # the target item's own conds are part of `conds` already; keep only what is
-                        # not implied by the target item itself as `via`
+                    alt_recs = []
+                    for conds, t in alts:
+                        ti = target_item(t)
                         tconds = set(items[ti]["conds"])
-                        via = [g for g in conds_ids(conds) if g not in tconds]
-                        k = (ti, tuple(via))
-                        if k not in seen_alt:
-                            seen_alt.add(k)
-                            alt_recs.append({"t": ti, "via": via})
+                        alt_recs.append({"t": ti, "via": sorted(g for g in conds if g not in tconds)})
                     refs.append({"src": src, "path": "::".join(segs), "line": line, "alts": alt_recs})
-                for ch in region.children:
-                    walk(ch)
-            walk(body)
 
     return {
         "crates": {c: {k: manifests[c][k] for k in ("name", "features", "default", "implies")} |
                    {"optional_deps": sorted(d for d, v in manifests[c]["deps"].items() if v["optional"]),
                     "deps": sorted(manifests[c]["deps"])} for c in crates},
-        "guards": guards,
+        "guards": I.guards,
         "items": items,
         "refs": refs,
         "stats": stats,
+        "resolver_passes": res.passes,
         "unresolved_samples": unresolved_samples,
     }
 
@@ -931,7 +864,5 @@ def main():
         print(c, "unresolved samples:")
         for x in s[:15]:
             print("   ", x)
-
-
 if __name__ == "__main__":
     main()
